@@ -1673,6 +1673,29 @@ func c07ScopePushPop(c *Ctx) {
 			}
 		}
 	}
+	// the pop happens whenever a scope is there to pop: a guard may protect the empty stack
+	// (len ≥ 1) but must not demand more
+	for _, b := range exit.Blocks {
+		for _, ins := range b.Instrs {
+			sl, ok := ins.(*ssa.Slice)
+			if !ok || sl.High == nil {
+				continue
+			}
+			lx, cc, ok := lenMinus(sl.High)
+			if !ok || cc != 1 {
+				continue
+			}
+			bc := &boundsCtx{fn: exit}
+			if !bc.sameSeq(lx, sl.X) {
+				continue
+			}
+			site := &idxSite{fn: exit, x: sl.X, need: 2}
+			bc.prove(site, sl)
+			c.Sites++
+			c.Check(!site.ok, "scope.pushpop", "hclsyntax.variablesWalker:pop.guard", sl.Pos(), "the pop is not held back while a scope is on the stack",
+				"the pop in Exit only happens when at least two scopes are on the stack ("+site.why+"): the outermost scope is never popped, so the names it binds hide root variables of the same name for the rest of the expression")
+		}
+	}
 	c.Check(constructed, "scope.pushpop", "hclsyntax.variablesWalker:constructed", pe, "the pushed node type is the one walkChildNodes constructs", fmt.Sprintf("no walkChildNodes method constructs a node of the type %v that Enter pushes a scope for", te))
 }
 
